@@ -453,8 +453,8 @@ def is_access_path(e):
     if isinstance(e, ast.Attribute):
         return is_access_path(e.value)
     if isinstance(e, ast.Subscript):
-        return is_access_path(e.value) and isinstance(
-            e.slice, (ast.Constant, ast.Name))
+        return is_access_path(e.value) and (
+            isinstance(e.slice, ast.Constant) or is_access_path(e.slice))
     return False
 
 
@@ -596,12 +596,100 @@ def template_sites(f, pattern=None):
 
 
 # ------------------------------------------------ canonical forms, conditions
+def positional_args(f, call):
+    """[(parameter name, argument expr)] of a call to an internal function,
+    keyword arguments bound to their parameters; None when the callee is not
+    an exactly resolved internal function or the call uses * / **."""
+    prog = getattr(f, 'prog', None)
+    if prog is None:
+        return None
+    if any(isinstance(a, ast.Starred) for a in call.args) or \
+            any(k.arg is None for k in call.keywords):
+        return None
+    cal = prog.callee(f, call)
+    if cal[0] == 'class':
+        k = prog.classes[cal[1]]
+        g = prog.lookup_method(k, '__init__')
+        skip = 1
+    elif cal[0] == 'func':
+        g = prog.funcs[cal[1]]
+        skip = 1 if (g.cls is not None and
+                     isinstance(call.func, ast.Attribute) and
+                     not any(isinstance(d, ast.Name) and
+                             d.id == 'staticmethod'
+                             for d in g.decorators)) else 0
+        if g.cls is not None and isinstance(call.func, ast.Attribute) and \
+                src(call.func.value) == g.cls.name:
+            skip = 0       # Class.method(obj, ...)
+    elif cal[0] == 'method':
+        # receiver of unknown class: every definition of that name agrees
+        # on the parameter list
+        cands = prog.methods_named(cal[1])
+        sigs = {tuple(m.params) for m in cands}
+        if len(sigs) != 1 or not cands:
+            return None
+        g = cands[0]
+        skip = 1
+    else:
+        return None
+    if g is None or g.node.args.vararg or g.node.args.kwarg:
+        return None
+    params = g.params[skip:]
+    if len(call.args) > len(params):
+        return None
+    out = list(zip(params, call.args))
+    kws = {k.arg: k.value for k in call.keywords}
+    if not set(kws) <= set(params[len(call.args):]):
+        return None
+    for p_ in params[len(call.args):]:
+        if p_ in kws:
+            out.append((p_, kws[p_]))
+    return out
+
+
+class _Positional(ast.NodeTransformer):
+    """helper(b=2, a=1) -> helper(1, 2) for exactly resolved internal
+    callees (as far as the leading parameters are all given)."""
+    def __init__(self, f):
+        self.f = f
+
+    def visit_Call(self, node):
+        self.generic_visit(node)
+        if not node.keywords:
+            return node
+        bound = positional_args(self.f, node)
+        if bound is None:
+            return node
+        prog = self.f.prog
+        cal = prog.callee(self.f, node)
+        g = prog.funcs.get(cal[1]) if cal[0] == 'func' else \
+            prog.lookup_method(prog.classes[cal[1]], '__init__')
+        params = [p_ for p_ in g.params if p_ not in ('self', 'cls')]
+        given = dict(bound)
+        args, rest = [], []
+        contiguous = True
+        for p_ in params:
+            if p_ in given and contiguous:
+                args.append(given[p_])
+            elif p_ in given:
+                rest.append(ast.keyword(arg=p_, value=given[p_]))
+            else:
+                contiguous = False
+        return ast.copy_location(ast.Call(func=node.func, args=args,
+                                          keywords=rest), node)
+
+
 def canon(f, e, depth=4, paths_only=False):
     """Source text of e with single-binding locals replaced by what they
-    stand for: the same text whether or not a sub-expression was first
-    stored in a local."""
+    stand for, and keyword arguments of internal calls in positional form:
+    the same text whether or not a sub-expression was first stored in a
+    local, and however the arguments are spelled."""
     if f is not None:
         e = substitute_locals(f, e, depth, paths_only=paths_only)
+        if getattr(f, 'prog', None) is not None and any(
+                isinstance(x, ast.Call) and x.keywords for x in ast.walk(e)):
+            import copy
+            e = _Positional(f).visit(copy.deepcopy(e))
     return ' '.join(src(e).split())
 
 
@@ -616,6 +704,13 @@ def cond_tree(e, f=None):
     is not(x in y), `isinstance(x, (A, B))` is an `or`, `x in ('a', 'b')` is
     an `or` of equalities, `x.startswith(('a', 'b'))` likewise, `a >= b` is
     not(a < b), `x in d.keys()` is `x in d`, bool(x) is x."""
+    if f is not None and not getattr(e, '_expanded', False):
+        # look through locals once, at the root: `kinds = (A, B)` ...
+        # `isinstance(x, kinds)` is `isinstance(x, (A, B))`
+        e = substitute_locals(f, e)
+        for x in ast.walk(e):
+            x._expanded = True
+
     def atom(x):
         return ('atom', canon(f, x))
 
@@ -889,4 +984,46 @@ def cond_branches(an, f, match, value):
             t, pol = t[1], not pol
         if t[0] == 'atom' and hit(t[1]):
             out.extend(c.branch(n, value if pol else not value))
+    return out
+
+
+def returns_under(an, f, env):
+    """Set of results f can produce when its conditions evaluate as env
+    says (see eval_cond): True / False / None for returned values that can
+    be decided, 'unknown' for the others, ('raise', class) for raises."""
+    c = an.cfg(f)
+    out = set()
+    seen = set()
+    stack = [c.entry]
+    while stack:
+        i = stack.pop()
+        if i in seen:
+            continue
+        seen.add(i)
+        n = c.nodes[i]
+        if n.kind == 'test':
+            v = eval_cond(f, n.ast, env)
+            if v is UNKNOWN:
+                stack.extend(s for s in c.succ[i]
+                             if (i, s) not in c.exc_edges)
+            else:
+                stack.extend(c.branch(n, bool(v)))
+            continue
+        if n.kind == 'return':
+            if n.ast.value is None:
+                out.add(None)
+            else:
+                v = eval_cond(f, n.ast.value, env)
+                out.add('unknown' if v is UNKNOWN else
+                        (bool(v) if v is not None else None))
+            continue
+        if n.kind == 'raise_stmt':
+            out.add(('raise', raise_class(an, f, n.ast)))
+            continue
+        if i == c.exit:
+            out.add(None)
+            continue
+        for s in c.succ[i]:
+            if (i, s) not in c.exc_edges:
+                stack.append(s)
     return out
